@@ -39,6 +39,7 @@ META = dict(
 MODULE = "OPM.Properties.C27"
 REQUIRED = ["OPM.C27.conservation", "OPM.C27.delivered_at_most_once", "OPM.C27.resend_only_after_failure",
             "OPM.C27.seq_kept", "OPM.C27.seq_on_every_post", "OPM.C27.seq_unique",
+            "OPM.C27.attempts_one_sequence_number",
             "OPM.C27.caught_up_buffer_empty", "OPM.C27.buffered_never_dropped", "OPM.C27.steps_iff_run",
             "OPM.C27.C27_counterexample", "OPM.C27.C27_counterexample_loss", "OPM.C27.C27_counterexample_stranded",
             "OPM.C27.C27_partial"]
